@@ -66,6 +66,15 @@ def run_unit(prop, cases, impl_exe, spec_comp, model_comp, proj_spec, proj_model
             # crash / sanitizer abort: the case being executed is the one after the last complete one
             k = len(impl_cases)
             idx, ops = part[k] if k < len(part) else part[-1]
+            # the harness' stdout is block buffered: the output of cases that completed before the abort may be
+            # lost with it, so the failing case is part[k] OR A LATER ONE - run the candidates alone to find it
+            for j in range(k, len(part)):
+                one = core.run_stream([impl_exe], core.cases_to_text([part[j][1]], prelude), env=env)
+                if one.rc != 0:
+                    idx, ops = part[j]
+                    out["impl"] = one if j != k else out["impl"]
+                    partial = one.lines
+                    break
             res.crashes.append({"case": idx, "ops": ops, "done_ops": max(0, len(partial) - npre), "rc": out["impl"].rc,
                                 "stderr": out["impl"].err[-4000:]})
         for j, (idx, ops) in enumerate(part):
